@@ -148,48 +148,7 @@ func c36(r *core.Run) {
 	}
 	r.Floor("R1.reset", 6)
 
-	// R2 release discipline
-	isPut := func(o *types.Func) bool { return o != nil && o.Name() == "Put" && o.Pkg() != nil && o.Pkg().Path() == "sync" }
-	for _, f := range [][3]string{{"bbq/vm", "", "releaseReferenceSet"}, {"encoding/ccf", "", "putBuffer"}} {
-		fn := mustFn(r, "R2.release", f[0], f[1], f[2])
-		if fn == nil {
-			continue
-		}
-		puts := core.CallsTo(fn, false, isPut)
-		ok := len(puts) == 1
-		if ok {
-			cleared := false
-			for _, c := range core.Calls(fn, false) {
-				name := ""
-				if o := core.Callee(c); o != nil {
-					name = o.Name()
-				} else if b, isB := c.Common().Value.(*ssa.Builtin); isB {
-					name = b.Name()
-				}
-				if (name == "clear" || name == "Reset" || name == "Clear") && core.Dominates(c, puts[0]) {
-					cleared = true
-				}
-			}
-			ok = cleared
-		}
-		r.Check(ok, "R2.release", core.SSAKey(fn)+": cleared before Put", fn.Pos(), "contents are cleared before the object returns to the pool", "the object is returned to the pool with its contents")
-	}
-	// every release of the CCF scratch buffer is deferred
-	n := 0
-	for _, fn := range w.SrcFuncsIn("encoding/ccf") {
-		if fn.Parent() != nil || fn.Name() == "putBuffer" {
-			continue
-		}
-		for _, c := range core.CallsTo(fn, true, funcOf(mod+"/encoding/ccf", "putBuffer")) {
-			n++
-			_, isDefer := c.(*ssa.Defer)
-			r.Check(isDefer, "R2.release", core.SSAKey(fn)+": putBuffer deferred", posOf(c), "the scratch buffer is released when the function returns",
-				"the scratch buffer is released before the function returns while slices into it are still used: a concurrent encoder can overwrite them")
-		}
-	}
-	if n == 0 {
-		r.Undecided("R2.release", "encoding/ccf putBuffer callers", "no caller found")
-	}
+	poolReleaseDiscipline(r, "R2.release")
 	r.Floor("R2.release", 3)
 
 	// R3 package-level maps/slices written outside init
@@ -291,4 +250,82 @@ func c36(r *core.Run) {
 		}
 	}
 	r.Floor("R3.globals", 1)
+}
+
+// poolReleaseDiscipline: pool objects are cleared before Put and the CCF scratch buffer is released only by defer.
+func poolReleaseDiscipline(r *core.Run, rule string) {
+	w := r.W
+	// R2 release discipline
+	isPut := func(o *types.Func) bool { return o != nil && o.Name() == "Put" && o.Pkg() != nil && o.Pkg().Path() == "sync" }
+	for _, f := range [][3]string{{"bbq/vm", "", "releaseReferenceSet"}, {"encoding/ccf", "", "putBuffer"}} {
+		fn := mustFn(r, rule, f[0], f[1], f[2])
+		if fn == nil {
+			continue
+		}
+		puts := core.CallsTo(fn, false, isPut)
+		ok := len(puts) == 1
+		if ok {
+			cleared := false
+			for _, c := range core.Calls(fn, false) {
+				name := ""
+				if o := core.Callee(c); o != nil {
+					name = o.Name()
+				} else if b, isB := c.Common().Value.(*ssa.Builtin); isB {
+					name = b.Name()
+				}
+				if (name == "clear" || name == "Reset" || name == "Clear") && core.Dominates(c, puts[0]) {
+					cleared = true
+				}
+			}
+			ok = cleared
+		}
+		r.Check(ok, rule, core.SSAKey(fn)+": cleared before Put", fn.Pos(), "contents are cleared before the object returns to the pool", "the object is returned to the pool with its contents")
+	}
+	// every release of a pooled object happens by defer (after the last use in the releasing function), except at the
+	// reviewed sites where the object is unlinked immediately afterwards
+	isRelease := func(o *types.Func) bool {
+		if o == nil || o.Pkg() == nil || !core.InMod(o.Pkg().Path()) {
+			return false
+		}
+		switch o.Name() {
+		case "Reclaim":
+			return core.RecvName(o) != ""
+		case "putBuffer", "releaseReferenceSet":
+			return true
+		}
+		return false
+	}
+	reviewedDirect := map[string]string{
+		"sema.(Checker).Check": "the checker's own resource set is released at the end of checking and the field is set to nil in the next statement",
+		"bbq/vm.(Context).ClearReferencedResourceKindedValues": "the set is removed from the tracking map in the next statement",
+	}
+	n := 0
+	for _, fn := range w.SrcFuncs() {
+		if fn.Parent() != nil {
+			continue
+		}
+		k := core.SSAKey(fn)
+		if k == "encoding/ccf.putBuffer" || k == "bbq/vm.releaseReferenceSet" {
+			continue
+		}
+		for _, c := range core.CallsTo(fn, true, isRelease) {
+			if c.Common().IsInvoke() {
+				// release through the TokenStream interface: also a pool release (lexer)
+			}
+			n++
+			_, isDefer := c.(*ssa.Defer)
+			key := k + ": " + calleeName(c) + " deferred"
+			switch {
+			case isDefer:
+				r.OK(rule, key, posOf(c), "the pooled object is released when the function returns")
+			case reviewedDirect[k] != "":
+				r.OK(rule, key, posOf(c), "reviewed direct release: "+reviewedDirect[k])
+			default:
+				r.Bad(rule, key, posOf(c), "the pooled object is released by a direct call while the function (or data derived from the object) may still use it: a concurrent user of the pool can take and overwrite it")
+			}
+		}
+	}
+	if n == 0 {
+		r.Undecided(rule, "pool release call sites", "no caller found")
+	}
 }
